@@ -135,7 +135,8 @@ public:
           ++char_cnt;
         }
 
-        if ((char_cnt != 0) && ((fc >= 'a' && fc <= 'z') || (fc >= 'A' && fc <= 'Z')))
+        // a named argument starts like an identifier: a letter or an underscore (e.g. LOGJ_INFO(logger, "", _count))
+        if ((char_cnt != 0) && ((fc >= 'a' && fc <= 'z') || (fc >= 'A' && fc <= 'Z') || (fc == '_')))
         {
           found_named_arg = true;
         }
